@@ -313,7 +313,11 @@ impl CoreInner {
 		if let Some(ref versioned_index) = self.versioned_index {
 			let mut vi_guard = versioned_index.write();
 
-			for (encoded_key, encoded_value) in &bptree_entries {
+			// The entries come in memtable order: per key, newest version first. The
+			// index orders by (user key, timestamp) only, so two versions of a key with
+			// the same timestamp are the same index key and the one inserted last
+			// stays. Insert oldest first so that the latest write is the one kept.
+			for (encoded_key, encoded_value) in bptree_entries.iter().rev() {
 				vi_guard.insert(encoded_key.clone(), encoded_value.clone())?;
 			}
 
